@@ -28,26 +28,56 @@ def indirect_sites(c):
 
 
 def fnptr_field(fn, v, depth=0):
+    """where a called function pointer comes from: the name of the struct field it was loaded from, 'const:<function>'
+    when it is one of a fixed set of functions (a comparison routine picked by a flag, a table of built-in workers),
+    or the same through a parameter when every caller passes such a value"""
+    if v.kind == 'global':
+        return 'const:' + v.name
+    if v.kind == 'cexpr':
+        b = v.strip_casts()
+        return 'const:' + b.name if b.kind == 'global' else '?'
     if v.kind != 'reg' or depth > 6:
         return '?'
     d = fn.defs.get(v.name)
     if d is None:
-        return 'param:' + fn.param_names.get(v.name, v.name)
+        # a parameter: classified by what the callers pass
+        pos = next((i for i, p in enumerate(fn.params) if p.name == v.name), None)
+        names = set()
+        if pos is not None:
+            for g in fn.module.funcs.values():
+                for call in g.calls(fn.name):
+                    if pos < len(call.args):
+                        names.add(fnptr_field(g, call.args[pos], depth + 1))
+        return _merge(names) if names else 'param:' + fn.param_names.get(v.name, v.name)
     if d.op == 'load':
         a = d.ops[0]
         if a.kind == 'reg':
             g = fn.defs.get(a.name)
             if g is not None and g.op == 'getelementptr' and g.srcty.strip().startswith('%struct.') and len(g.ops) >= 3 and g.ops[2].kind == 'int':
                 return fn.module.field_name(g.srcty.strip(), g.ops[2].ival)
+            if g is not None and g.op == 'getelementptr' and g.ops[0].kind == 'global' and (fn.module.globals.get(g.ops[0].name) or {}).get('const'):
+                return 'const:' + g.ops[0].name       # an entry of a constant table of functions
+            if g is not None and g.op == 'alloca':
+                # a local that holds the pointer: every value stored into it
+                names = set(fnptr_field(fn, st.ops[0], depth + 1) for st in fn.instrs() if st.op == 'store' and st.ops[1].kind == 'reg' and st.ops[1].name == a.name)
+                return _merge(names) if names else '?'
         return '?'
     if d.op in ('bitcast',):
         return fnptr_field(fn, d.ops[0], depth + 1)
     if d.op in ('phi', 'select'):
-        names = set(fnptr_field(fn, x, depth + 1) for x in (d.ops if d.op == 'phi' else d.ops[1:]))
-        names.discard('?')
-        fields = sorted(n for n in names if not n.startswith('param:'))
-        return fields[0] if fields else (sorted(names)[0] if names else '?')
+        return _merge(set(fnptr_field(fn, x, depth + 1) for x in (d.ops if d.op == 'phi' else d.ops[1:])))
     return '?'
+
+
+def _merge(names):
+    names = set(names)
+    if '?' in names or any(n.startswith('param:') for n in names):
+        fields = sorted(n for n in names if n != '?' and not n.startswith('param:') and not n.startswith('const:'))
+        return fields[0] if fields else '?'
+    fields = sorted(n for n in names if not n.startswith('const:'))
+    if fields:
+        return fields[0]
+    return 'const:' + ','.join(sorted(n[6:] for n in names)) if names else '?'
 
 
 def run(c, chk):
@@ -70,7 +100,7 @@ def run(c, chk):
         n = len(byfield.get(fld, []))
         chk.floor('R14.0 %s call sites' % fld, n, floor)
         chk.ok('R14.0', '%s: %d call site(s)' % (fld, n), ', '.join(sorted(set(f.name for f, _ in byfield.get(fld, [])))), nontrivial=False)
-    unknown = [(fn, call) for fn, call, fld in sites if fld == '?' or fld not in FLOORS]
+    unknown = [(fn, call) for fn, call, fld in sites if not fld.startswith('const:') and (fld == '?' or fld not in FLOORS)]
     for fn, call in unknown:
         chk.fail('R14.0', 'unclassified-indirect:%s' % fn.name, c.where(call), 'indirect call in %s() through a pointer that is not one of the known callback fields' % fn.name)
 
